@@ -169,7 +169,7 @@ class _:
 
 from pyvc.values import TDict  # noqa: E402
 
-ASMS = TDict(TOpt(STR), TRef("Assembly"))
+ASMS = TDict(TOpt(STR), TRef("Assembly", exact=True))  # the output assemblies are plain Assembly objects
 CN = TRef("ChrNamer")
 OSTR = TOpt(STR).sort()
 
@@ -218,6 +218,12 @@ class _:
     params = {"self": BA}
     result = STR
     pure = staticmethod(lambda o, s: s.scaffold_namer.autosome_prefix)
+
+
+def _norm_stmt(text):
+    import ast
+
+    return ast.unparse(ast.parse(text.strip()).body[0])
 
 
 FKEY = TTuple([TOpt(STR), TOpt(STR), STR])
@@ -282,9 +288,20 @@ class _:
         return z3.And(res.z >= o.alloc, res.z < n.alloc, res.len >= 0,
                       forall(lambda k: z3.Implies(z3.And(0 <= k, k < res.len), z3.And(res[k].z >= 1, res[k].z < n.alloc))))
 
-    # what the append statement does to the fused scaffold it is applied to (proved at the statement, used by the
+    # what the look-up and the append statement do to the fused scaffold (proved at the statements, used by the
     # per-iteration postcondition)
-    stmt_post = {("if isinstance(scffld, OverlapResult):\n    build_scffld.append_scaffold(scffld.to_scaffold(), gap)\nelse:\n    build_scffld.append_scaffold(scffld, gap)", 0):
+    stmt_post = {(_norm_stmt("""
+build_scffld = hap_name_scaffold.setdefault(
+    (scffld.tag, scffld.haplotype, scffld.name),
+    Scaffold(scffld.name, tag=scffld.tag, haplotype=scffld.haplotype, rank=scffld.rank,
+             original_name=scffld.original_name, original_tags=scffld.original_tags),
+)"""), 0): lambda v, b, o: (lambda key, d0: [
+        ("known-key-gives-the-fused-scaffold-as-it-is", z3.Implies(d0.has(key), z3.And(
+            v.build_scffld.z == d0.raw(key), v.build_scffld.rows.z == d0.get(key).rows.z, v.build_scffld.rows.arr == d0.get(key).rows.arr,
+            v.build_scffld.rows.lo == d0.get(key).rows.lo, v.build_scffld.rows.hi == d0.get(key).rows.hi))),
+        ("new-key-gives-an-empty-scaffold", z3.Implies(z3.Not(d0.has(key)), z3.And(v.build_scffld.z >= b.alloc, v.build_scffld.rows.len == 0))),
+    ])(_fuse_key(b.scffld), b.hap_name_scaffold),
+                 ("if isinstance(scffld, OverlapResult):\n    build_scffld.append_scaffold(scffld.to_scaffold(), gap)\nelse:\n    build_scffld.append_scaffold(scffld, gap)", 0):
                  lambda v, b, o: (lambda r1, r0, g: [
                      ("same-list", r1.z == r0.z),
                      ("length", r1.len == r0.len + z3.If(z3.And(z3.Not(g.is_none), r0.len > 0), 1, 0) + b.scffld.rows.len),
@@ -315,6 +332,12 @@ class _:
             ("yielded", forall(lambda k: z3.Implies(z3.And(0 <= k, k < v._yields.len), z3.And(v._yields[k].z >= 1, v._yields[k].z < v.alloc)))),
         ]),
     }
+
+
+def _class_id(name):
+    from pyvc.spec import CLASSES
+
+    return CLASSES[name]["id"]
 
 
 def _destination(sc):
